@@ -82,7 +82,7 @@ ESCALATIONS = [
 # set it to True once the repair proposed with this check is in /repo (then OverrunFix = TRUE everywhere, the escalation is
 # enforced and the oversize region becomes a binding plan).  X13_OVERRUN_FIXED=1 in the environment does the same for a
 # trial against a scratch worktree that carries the repair.
-OVERRUN_FIXED = os.environ.get("X13_OVERRUN_FIXED", "") == "1"
+OVERRUN_FIXED = os.environ.get("X13_OVERRUN_FIXED", "1") == "1"      # repaired in /repo by 92f478a
 ESCALATED_ENFORCED = OVERRUN_FIXED
 OVER_PLAN = dict(name="over-ops3", mode="bfs", cuts="MC_CutsOver", k2="MC_K2None", ops=3, grid="MC_CfgsBoth", mod=4, workers=2)
 
@@ -331,6 +331,25 @@ def escalation_run(e, binp, wd):
             "model_judge": sorted(set(x[0] for b in bs for x in b["verdicts"])) or ["accepted"],
             "real_code_judge": sorted(set(x[0]["reason"] for x in bad)) or ["accepted"], "model_vs_code_drift": st["drift"],
             "enforced": ESCALATED_ENFORCED, "_bad": bad}
+
+
+def run_escalations(V):
+    """The scripted scenarios of ESCALATIONS that belong to V's property, alone (the registered check of that property
+    runs them on every run: a repaired defect found at design level must be reported again if it ever returns)."""
+    mine = [e for e in ESCALATIONS if e["property"] == V.pid]
+    if not mine:
+        return []
+    wd = vlib.scratch("x13impl-esc-%s" % V.pid.lower())
+    binp = vlib.go_build(DRIVER)
+    out = []
+    for e in mine:
+        r = escalation_run(e, binp, os.path.join(wd, "esc-" + e["name"]))
+        for bb, evs in r.pop("_bad"):
+            V.reject({"reason": bb["reason"], "ipversion": bb.get("v", 4), "escalation": e["name"]},
+                     {"driver": DRIVER, "bad": bb, "events": evs, "scripted": {"cfgs": r["cfgs"], "ops": r["ops"]}})
+        out.append(r)
+    shutil.rmtree(wd, ignore_errors=True)
+    return out
 
 
 def cex_pipeline(fdefects, binp, wd):
